@@ -157,6 +157,16 @@ def scenario_subprocess(ctx, sc, tag):
         out.case("hashseed-cwd-buffer-cache", inp, ("sub", cf["hashseed"], cf["buf"], cf["cwd"], cf["warm"]))
         if ref is None:
             ref = snap
+            # "running again on the same inputs": the SAME command once more, into the same place (the first run's outputs, its .log included, are
+            # there and the default --clobber rewrites them) must leave byte-identical files
+            rc2, so2, se2 = run_sub(wd, cf["hashseed"], cf["buf"], "pretext-to-asm", ["-a", d / infile, "-p", d / "ptx.agp", "-o", d / outfile])
+            snap2 = snapshot(d, skip=("in.fa", "in.agp", "ptx.agp", "in.fa.fai", "in.fa.agp"), norm=(d, wd))
+            snap2["<exit>"] = str(rc2).encode()
+            inp2 = dict(inp, scenario="subprocess-rerun-in-place")
+            out.case("hashseed-cwd-buffer-cache", inp2, ("rerun", cf["hashseed"]))
+            if snap2 != ref:
+                diff = [n for n in set(snap2) | set(ref) if snap2.get(n) != ref.get(n)]
+                out.oracle_fail("hashseed-cwd-buffer-cache", inp2, f"a second run of the same command into the same place leaves different files: {sorted(diff)[:4]}")
         elif snap != ref:
             diff = [n for n in set(snap) | set(ref) if snap.get(n) != ref.get(n)]
             out.oracle_fail("hashseed-cwd-buffer-cache", inp, f"output files differ from the first run of the same inputs: {sorted(diff)[:4]}")
